@@ -75,7 +75,8 @@ CLAIMED = {
              'esm_class/data_coding, and that each segment decodes on its own in strict mode (no split escape or surrogate pair), and it returns '
              'exactly the text; 16-bit references for split_sms_udh; generic loop lemmas (lossless, sized) for any limit. Tied to the code by '
              'differential runs of the split functions and by running the real ESME sender (fake transport) and parsing the written PDUs with an '
-             'independent SMPP reference parser.',
+             'independent SMPP reference parser; two thirds of the sender-path variants set every option of the message away from its default (TON/NPI, protocol_id, '
+             'priority, both time fields, replace_if_present, sm_default_msg_id) and each PDU of the message must carry all of them (oracle; the clone() of a segment is not in the model).',
         note='Trusted: Coq kernel, translator (tables, size constants), harness + smppref.py. Domain: default alphabet gsm0338, automatic encoding, '
              'strict error handling. Proved for the code after fix 164ba1d (the pinned code cut GSM texts on characters). No axioms.',
         technique='Coq proof: generic chunking invariants by induction on fuel, byte/unit commutation for UTF-16, decoder-state lemmas; differential + wire-level correspondence',
@@ -117,10 +118,10 @@ CLAIMED = {
         text='Coq theorem (Props/C09.v) over an executable model of put_delivery_segmented: for ANY family of messages with pairwise distinct '
              'references, each cut into any number >= 2 of segments, and ANY arrival order and interleaving without duplicates, the k-th arrival '
              'returns the complete text (segments joined in numeric order - proved through a sorting-uniqueness lemma) exactly when it is the last '
-             'missing segment of its message and nothing otherwise, and never fails. Tied to the code by feeding deliver_sm PDUs built by an '
+             'missing segment of its message and nothing otherwise, and never fails; once every message begun is complete the delivery segment store is empty again (C09_store_empty_when_complete), so any later stream - in particular later messages under the SAME references, as an 8-bit reference must be used again after 256 messages - is treated as by a fresh correlator (C09_reference_free_after_completion: reassemble (arr ++ later) = reassemble arr ++ reassemble later). Tied to the code by feeding deliver_sm PDUs built by an '
              'independent encoder (SAR TLVs, UDH 8/16-bit, GSM/UCS2, short_message/message_payload) to the real receiver loop '
              '(_receive_data + from_pdu + SimpleCorrelator) and comparing the received-hook calls with the model; the oracle also checks one '
-             'delivery per message with the exact text and a deliver_sm_resp echoing every segment; all permutations of 2..5 (thorough 6) segments.',
+             'delivery per message with the exact text and a deliver_sm_resp echoing every segment; one family in four is followed by a second family under the same references; all permutations of 2..5 (thorough 6) segments.',
         note='Trusted: Coq kernel, harness + smppref.py, asyncio. Domain: no duplicate segments, distinct references among concurrently incomplete '
              'messages, delivery TTL not reached. Proved for the code after fixes 7dca4fc, 00c3b4e, d468104 (16-bit reference, numeric join order, UDH in message_payload). No axioms.',
         technique='Coq proof: invariant over arrival prefixes + uniqueness of strictly sorted lists; PDU-level trace correspondence through the real receiver',
